@@ -5,6 +5,7 @@ import (
 	"go/token"
 	"go/types"
 	"math"
+	"regexp"
 	"strings"
 
 	"golang.org/x/tools/go/ssa"
@@ -25,10 +26,10 @@ import (
 // expression. One line of reason each.
 var trustedSites = map[string]string{
 	// gbn.Send: the caller's own payload, never relay-chosen; the chunk arithmetic itself is decided by C14 (CHUNK-2).
-	"BND|(*gbn.GoBackNConn).Send|slice(param:data,phi:sentBytes,(load(gbn.config.maxChunkSize)+phi:sentBytes))": "local payload; chunk arithmetic decided by C14 CHUNK-2",
-	"BND|(*gbn.GoBackNConn).Send|slice(param:data,phi:sentBytes,)":                                              "local payload; chunk arithmetic decided by C14 CHUNK-2",
+	"BND|(*gbn.GoBackNConn).Send|slice(param#1,phi,(load(gbn.config.maxChunkSize)+phi))": "local payload; chunk arithmetic decided by C14 CHUNK-2",
+	"BND|(*gbn.GoBackNConn).Send|slice(param#1,phi,)":                                              "local payload; chunk arithmetic decided by C14 CHUNK-2",
 	// NoiseConn.Write: the caller's own buffer.
-	"BND|(*mailbox.NoiseConn).Write|slice(param:b,phi:bytesWritten,(phi:bytesWritten+phi:chunkSize))": "local buffer; chunk loop clamps chunkSize to the remainder (C15 RDC-3)",
+	"BND|(*mailbox.NoiseConn).Write|slice(param#1,phi,(phi+phi))": "local buffer; chunk loop clamps chunkSize to the remainder (C15 RDC-3)",
 	// AEAD plaintexts: len(plaintext) = len(ciphertext) - 16 for a successful Open, and the ciphertext buffers have fixed sizes;
 	// the bytes are authenticated, i.e. chosen by the key-holding peer and not by the relay.
 	"BND|(*mailbox.Machine).ReadHeader|binary.Uint16(extract0(call:(*mailbox.cipherState).Decrypt))":                      "AEAD plaintext of the 18-byte header array is 2 bytes",
@@ -38,6 +39,21 @@ var trustedSites = map[string]string{
 	// Mnemonic codec: local entropy; ReadBits(aezeed.BitsPerWord=11) < 2048 = len(aezeed.DefaultWordList).
 	"BND|mailbox.PassphraseEntropyToMnemonic|load(global:DefaultWordList)[extract0(call:(*github.com/kkdai/bstream.BStream).ReadBits)]": "11-bit index into the 2048-word list; local data (C17 CONST)",
 }
+
+// trustedSite looks a site up in trustedSites with the names of locals and parameters
+// removed from the key (phi:<name> -> phi, var:<name> -> var, param:<name> -> param#<index>),
+// so that renaming a variable does not turn a listed site into an alarm.
+func trustedSite(rule string, fn *ssa.Function, key string) (string, bool) {
+	k := key
+	for i, p := range fn.Params {
+		k = strings.ReplaceAll(k, "param:"+p.Name(), fmt.Sprintf("param#%d", i))
+	}
+	k = localNameRe.ReplaceAllString(k, "$1")
+	why, ok := trustedSites[rule+"|"+k]
+	return why, ok
+}
+
+var localNameRe = regexp.MustCompile(`\b(phi|var):[A-Za-z_][A-Za-z0-9_]*`)
 
 func init() {
 	register("C07",
@@ -151,7 +167,7 @@ func runC07(c *Checker) {
 					return
 				}
 				key := fmt.Sprintf("%s|panic", fnName(fn))
-				if why, ok := trustedSites["PANIC|"+key]; ok {
+				if why, ok := trustedSite("PANIC", fn, key); ok {
 					c.ok("PANIC", key, instrPos(in), "listed: "+why)
 				} else {
 					c.fail("PANIC", key, instrPos(in), "explicit panic in non-test code of an endpoint package")
@@ -220,7 +236,7 @@ func checkIndex(c *Checker, rg *Ranger, ws *windowSpace, fn *ssa.Function, in ss
 			return
 		}
 	}
-	if why, ok := trustedSites["BND|"+key]; ok {
+	if why, ok := trustedSite("BND", fn, key); ok {
 		c.ok("BND", key, instrPos(in), "listed: "+why)
 		return
 	}
@@ -298,7 +314,7 @@ func checkSlice(c *Checker, rg *Ranger, fn *ssa.Function, in *ssa.Slice) {
 		c.ok("BND", key, instrPos(in), detail)
 		return
 	}
-	if why, ok := trustedSites["BND|"+key]; ok {
+	if why, ok := trustedSite("BND", fn, key); ok {
 		c.ok("BND", key, instrPos(in), "listed: "+why)
 		return
 	}
@@ -446,7 +462,7 @@ func checkBinaryUintCalls(c *Checker, rg *Ranger) {
 				c.ok("BND", key, instrPos(call), fmt.Sprintf("argument length >= %d (need %d)", min, n))
 				return
 			}
-			if why, ok := trustedSites["BND|"+key]; ok {
+			if why, ok := trustedSite("BND", fn, key); ok {
 				c.ok("BND", key, instrPos(call), "listed: "+why)
 				return
 			}
